@@ -539,6 +539,11 @@ class InterpBase:
         """[elt for x in S] over a sequence of symbolic length: the element is evaluated once
         for a generic index i; the result array is defined by  forall j. res[j] = elt[i:=j]."""
         from .values import sel, fresh_arr
+        hook = self.specs.get("comp_abstract")
+        if hook is not None:
+            r = hook(self, e, g, st, cfr, itv, elt_fn)
+            if r is not None:
+                return r
         seqv = self.as_sseq(st, itv, e)
         i = z3.Int(fresh_name("ci"))
         s1 = st.fork()
@@ -590,6 +595,8 @@ class InterpBase:
         def fin(s, vs):
             if isinstance(vs, SSeq):
                 return [(s, s.alloc(HList(arr=vs.arr, n=vs.n, k=vs.k)))]
+            if not isinstance(vs, list):
+                return [(s, vs)]  # opaque iterable produced by a comp_abstract hook
             return [(s, s.alloc(HList(items=list(vs))))]
 
         return self._comp(e, st, fr, lambda s, cfr: seq(self.ev(e.elt, s, cfr), lambda s2, v: [(s2, [v])]), fin)
@@ -599,6 +606,8 @@ class InterpBase:
         def fin(s, vs):
             if isinstance(vs, SSeq):
                 return [(s, s.alloc(HIter(vs, 0, tag="generator")))]
+            if not isinstance(vs, list):
+                return [(s, vs)]
             return [(s, tuple(vs))]
 
         return self._comp(e, st, fr, lambda s, cfr: seq(self.ev(e.elt, s, cfr), lambda s2, v: [(s2, [v])]), fin)
